@@ -400,14 +400,14 @@ def main(argv):
     rlimit = spec.get('rlimit', 30)
     runs = {}
     with cf.ThreadPoolExecutor(max_workers=8) as ex:
-        futs = {u: ex.submit(process_unit, u, rlimit, seed, True) for u in units}
+        futs = {u: ex.submit(process_unit, u, rlimit, seed, u in spec['units']) for u in units}
         for u, f in futs.items():
             runs[u] = f.result()
     cls = {u: classify(r) for u, r in runs.items()}
     # one retry with 4x rlimit / other seed for resource-limited units
     for u in units:
         if cls[u]['status'] == 'resource':
-            r2 = process_unit(u, rlimit * 4, seed + 7919, True)
+            r2 = process_unit(u, rlimit * 4, seed + 7919, u in spec['units'])
             runs[u] = r2
             cls[u] = classify(r2)
             cls[u]['notes'].append('retried with rlimit x4')
